@@ -319,6 +319,21 @@ func crashResult(prop string, idx int, end runEnd) *wire.Result {
 // innermost root-package method of the running goroutine that is inside
 // Readline. This is stable across samples of the same loop.
 func spinFrame(dump string) string {
+	// first choice: the goroutine that is inside Readline and not parked at a simulator point
+	for _, blk := range strings.Split(dump, "\n\n") {
+		if !strings.Contains(blk, "readline.(*Shell).Readline") || strings.Contains(blk, "verifsim/sim.(*Session).park") {
+			continue
+		}
+		for _, l := range strings.Split(blk, "\n") {
+			l = strings.TrimSpace(l)
+			if strings.HasPrefix(l, "github.com/reeflective/readline.(*Shell).") {
+				if i := strings.LastIndex(l, "("); i > 0 {
+					l = l[:i]
+				}
+				return strings.TrimPrefix(l, "github.com/reeflective/readline.")
+			}
+		}
+	}
 	for _, blk := range strings.Split(dump, "\n\n") {
 		lines := strings.Split(blk, "\n")
 		if len(lines) == 0 || !strings.HasPrefix(lines[0], "goroutine ") {
@@ -699,7 +714,14 @@ func cmdCheck(args []string) int {
 				if known || *noMin {
 					budget = 0
 				}
-				rep, ok := confirmAndMinimise(c, cfg.hang*3, budget)
+				h := cfg.hang * 3
+				if c.Class == "SPIN" {
+					h = cfg.hang + 4*time.Second
+					if budget > 40 {
+						budget = 40
+					}
+				}
+				rep, ok := confirmAndMinimise(c, h, budget)
 				if ok {
 					results[ki].rep, results[ki].ok = rep, true
 					return
@@ -733,7 +755,7 @@ func cmdCheck(args []string) int {
 		os.WriteFile(path, b, 0o644)
 		if *propose {
 			os.MkdirAll(filepath.Join(root, "findings"), 0o755)
-			fname := fmt.Sprintf("%s-%s.json", prop, sanitize(rep.Sig))
+			fname := fmt.Sprintf("%s-%s-%08x.json", prop, sanitize(rep.Sig), fnv32(rep.Sig))
 			os.WriteFile(filepath.Join(root, "findings", fname), b, 0o644)
 			fmt.Printf("PROPOSE finding: property=%s sig=%s replay=findings/%s %s\n", prop, rep.Sig, fname, strings.ReplaceAll(firstLines(rep.Msg, 1), "\n", " "))
 		}
@@ -1451,4 +1473,12 @@ func repoState() string {
 		return "unknown"
 	}
 	return strings.TrimSpace(string(out))
+}
+
+func fnv32(s string) uint32 {
+	h := uint32(2166136261)
+	for i := 0; i < len(s); i++ {
+		h = (h ^ uint32(s[i])) * 16777619
+	}
+	return h
 }
